@@ -102,6 +102,8 @@ class Cmp:
         if pa is not None and pb is not None and pa[1] and pb[1] and pa[1] != pb[1] and pa[0] != pb[0]:
             raise CrossField('%s of one operand is compared with %s of the other: for a single element x the test "x.%s against x.%s" need not be false, so the '
                              'relation is not irreflexive - not a strict weak order (undefined behaviour in the standard algorithm, and a wrong winner)' % (pa[1], pb[1], pa[1], pb[1]))
+        if pa is not None and pb is not None and pa[1] and pa[1] == pb[1] and pa[0] == pb[0]:
+            return '='          # a field compared with itself (same operand on both sides): always equal
         if pa is None or pb is None or pa[1] != pb[1] or pa[0] == pb[0]:
             raise Unsupported('comparison of %s with %s is not field-wise' % (show(a), show(b)))
         r = sigma[pa[1]]
